@@ -91,6 +91,17 @@ Section Single.
     destruct (cstep classify cap clears s o) as [s' out]. cbn [fst] in Hg'.
     specialize (IH s' Hg'). destruct (crun classify cap clears s' ops) as [s'' outs]. exact IH.
   Qed.
+
+  (* recency: a query that is answered leaves its own entry at the front (most recently used first), hit or miss *)
+  Lemma cstep_front s p v : (1 <= cap)%nat ->
+    snd (cstep classify cap clears s (Query p)) = Some (Some v) ->
+    hd_error (c_cache (fst (cstep classify cap clears s (Query p)))) = Some (p, v).
+  Proof.
+    intros Hc. cbn [cstep]. destruct (lookup p (c_cache s)) as [w|]; cbn [fst snd c_cache].
+    - intros H. inversion H. reflexivity.
+    - destruct (classify (c_tbl s) p) as [w|]; cbn [fst snd c_cache]; [|discriminate].
+      intros H. inversion H. destruct cap as [|n]; [inversion Hc|reflexivity].
+  Qed.
 End Single.
 
 Section Multi.
